@@ -1,4 +1,5 @@
-import Verif.Proofs.DataURIMain
+import Verif.Proofs.DataURILength
+import Verif.Proofs.Mediatype
 /-!
 # C18 — Data URI and media type helpers preserve what they encode
 
@@ -12,7 +13,7 @@ set_option maxRecDepth 100000
 namespace Verif.Props.C18
 open Verif Verif.Model.DataURI Verif.Proofs.DataURI
 open Verif.Spec.Rfc2397 (pctDecode rfcParse mtNorm trigPlus trigParamNoType trigB64Item trigTextPlainPrefix
-  trigDataURI holdsDataURI)
+  trigDataURI holdsDataURI validlyEncoded)
 
 /-! ## facts about the regenerated tables (re-checked by the kernel whenever the dependency changes) -/
 
@@ -229,5 +230,122 @@ theorem dataURI_preserves_counterexample_textPlainPrefix : ¬ dataURI_preserves_
 example : trigPlus "data:,a+b".toList = true ∧ trigParamNoType "data:;charset=utf-8,x".toList = true ∧
     trigB64Item "data:x/y;a=base64,QUJD".toList = true ∧ trigTextPlainPrefix "data:text/plainx,abc".toList = true := by
   decide
+
+/-! ## (f) the shorter of the two encodings is chosen -/
+
+/-- the three ways out of `minify.DataURI` for a URL the dependency parses: with `d` the (sub-)minified
+    payload, `B = len(";base64") + EncodedLen(len d)` and `A` = length of the percent-encoded form —
+    the input itself if it is shorter than both `A` and `B`; otherwise the base64 form **iff `B < A`**,
+    else the percent-encoded form.  (The early `break` of the `asciiLen` loop never changes a decision.) -/
+theorem dataURI_shortest (sub : List Char → List Char → Option (List Char)) (u mt d0 : List Char)
+    (hp : parseDataURI u = some (mt, d0)) :
+    let d := (sub mt d0).getD d0
+    let B := 7 + (b64enc d).length
+    let A := (encodeURL tbl d).length
+    (u.length < B ∧ u.length < A ∧ dataURI sub u = u) ∨
+    (¬(u.length < B ∧ u.length < A) ∧ B < A ∧
+      dataURI sub u = dataPrefix ++ (stripCharset (stripTextPlain mt) ++ semiBase64) ++ [','] ++ b64enc d) ∨
+    (¬(u.length < B ∧ u.length < A) ∧ A ≤ B ∧
+      dataURI sub u = dataPrefix ++ stripCharset (stripTextPlain mt) ++ [','] ++ encodeURL tbl d) := by
+  intro d B A
+  have hB : B = 7 + b64Len d.length := by simp only [B, b64enc_length]
+  have hA : A = pctLen tbl d := encodeURL_length tbl d
+  have hdec := asciiEst_decisions tbl (7 + b64Len d.length) u.length d
+  unfold dataURI
+  simp only [hp]
+  show (_ ∨ _ ∨ _)
+  rw [hB, hA]
+  by_cases h1 : u.length < 7 + b64Len d.length ∧ u.length < asciiEst tbl (7 + b64Len d.length) d.length d
+  · left
+    have := hdec.1.1 h1
+    exact ⟨this.1, this.2, by rw [if_pos h1]⟩
+  · right
+    have h1' : ¬(u.length < 7 + b64Len d.length ∧ u.length < pctLen tbl d) := fun h => h1 (hdec.1.2 h)
+    rw [if_neg h1]
+    by_cases h2 : 7 + b64Len d.length < asciiEst tbl (7 + b64Len d.length) d.length d
+    · left
+      refine ⟨h1', hdec.2.1 h2, ?_⟩
+      rw [if_pos h2, if_pos h2, stripTextPlain_append, stripCharset_append]
+    · right
+      have : ¬(7 + b64Len d.length < pctLen tbl d) := fun h => h2 (hdec.2.2 h)
+      refine ⟨h1', by omega, ?_⟩
+      rw [if_neg h2, if_neg h2]
+
+/-- … hence the result is never longer than either re-encoding of the (sub-)minified payload -/
+theorem dataURI_le_both (sub : List Char → List Char → Option (List Char)) (u mt d0 : List Char)
+    (hp : parseDataURI u = some (mt, d0)) :
+    (dataURI sub u).length ≤ (dataPrefix ++ (stripCharset (stripTextPlain mt) ++ semiBase64) ++ [','] ++
+        b64enc ((sub mt d0).getD d0)).length ∧
+    (dataURI sub u).length ≤ (dataPrefix ++ stripCharset (stripTextPlain mt) ++ [','] ++
+        encodeURL tbl ((sub mt d0).getD d0)).length := by
+  have h7 : semiBase64.length = 7 := rfl
+  have h5 : dataPrefix.length = 5 := rfl
+  have := dataURI_shortest sub u mt d0 hp
+  simp only [] at this
+  rcases this with ⟨h1, h2, h3⟩ | ⟨_, h2, h3⟩ | ⟨_, h2, h3⟩
+  · rw [h3]; simp only [List.length_append, List.length_cons, List.length_nil, h7, h5]; constructor <;> omega
+  · rw [h3]; simp only [List.length_append, List.length_cons, List.length_nil, h7, h5] at *; constructor <;> omega
+  · rw [h3]; simp only [List.length_append, List.length_cons, List.length_nil, h7, h5] at *; constructor <;> omega
+
+example : dataURI (fun _ _ => none) "data:,%23%23%23%23%23".toList = "data:,%23%23%23%23%23".toList ∧
+    dataURI (fun _ _ => none) "data:,%23%23%23%23%23%23".toList = "data:;base64,IyMjIyMj".toList := by decide
+
+/-! ## (e) never longer than a validly encoded input -/
+
+/-- the sub-minifier does not make the payload more expensive (true of "none registered", of the identity
+    and of any minifier that only deletes bytes) -/
+def NonExpanding (sub : List Char → List Char → Option (List Char)) : Prop :=
+  ∀ m x y, sub m x = some y → y.length ≤ x.length ∧ pctLen tbl y ≤ pctLen tbl x
+
+/-- full statement; "validly encoded" = base64 that decodes, or percent-encoded with every byte the table wants
+    escaped escaped (`Spec.validlyEncoded`) -/
+def dataURI_length_full : Prop :=
+  ∀ (sub : List Char → List Char → Option (List Char)) (u : List Char),
+    NonExpanding sub → (rfcParse u).isSome = true → validlyEncoded tbl u = true → (dataURI sub u).length ≤ u.length
+
+/-- the exact guard: the two dependency quirks that change how the payload is read -/
+theorem dataURI_length_partial (sub : List Char → List Char → Option (List Char)) (u : List Char)
+    (hsub : NonExpanding sub) (hr : (rfcParse u).isSome = true) (hv : validlyEncoded tbl u = true)
+    (g1 : trigPlus u = false) (g3 : trigB64Item u = false) : (dataURI sub u).length ≤ u.length := by
+  cases h : rfcParse u with
+  | none => rw [h] at hr; cases hr
+  | some md => exact length_core sub u md.1 md.2 hsub h g1 g3 hv
+
+/-- `data:base64,IyMjIyMj` (20 bytes, a valid percent-encoded payload under the media type text `base64`) comes
+    back as `data:;base64,IyMjIyMj` (21 bytes) -/
+theorem dataURI_length_counterexample : ¬ dataURI_length_full := fun h =>
+  absurd (h (fun _ _ => none) "data:base64,IyMjIyMj".toList (by intro _ _ _ e; cases e) (by decide) (by decide))
+    (by decide)
+
+/-- … and `data:,a+b` (9 bytes) as `data:,a%20b` (11 bytes) -/
+theorem dataURI_length_counterexample_plus : ¬ dataURI_length_full := fun h =>
+  absurd (h (fun _ _ => none) "data:,a+b".toList (by intro _ _ _ e; cases e) (by decide) (by decide)) (by decide)
+
+example : validlyEncoded tbl "data:text/html,%3Cp%3E%20x".toList = true ∧
+    validlyEncoded tbl "data:text/html,<p>".toList = false ∧
+    (dataURI (fun _ _ => none) "data:text/html,<p>".toList).length = 22 := by decide
+
+example : NonExpanding (fun _ d => some (d.filter (· ≠ ' '))) := by
+  intro _ x y h
+  simp only [Option.some.injEq] at h
+  subst h
+  constructor
+  · exact List.length_filter_le _ _
+  · simp only [pctLen]
+    have h1 := List.length_filter_le (fun c : Char => decide (c ≠ ' ')) x
+    have h2 : ((x.filter (fun c => decide (c ≠ ' '))).filter tbl).length ≤ (x.filter tbl).length := by
+      rw [List.filter_filter]
+      have : x.filter (fun a => tbl a && decide (a ≠ ' ')) = (x.filter tbl).filter (fun a => decide (a ≠ ' ')) := by
+        rw [List.filter_filter]
+        congr 1; funext a; exact Bool.and_comm _ _
+      rw [this]
+      exact List.length_filter_le _ _
+    omega
+
+/-! ## (g) the media type helper -/
+
+/-- never longer than its input -/
+theorem mediatype_len (b : List Char) : (mediatype b).length ≤ b.length :=
+  Verif.Proofs.Mediatype.mediatype_length b
 
 end Verif.Props.C18
